@@ -55,6 +55,7 @@ def configs():
         "simple": (text(analysis.SimpleAnalyzer()), P),
         "stemming": (text(analysis.StemmingAnalyzer()), P),
         "stemming-cached": (text(analysis.StemmingAnalyzer(cachesize=3)), P),
+        "stemming-ignore": (text(analysis.StemmingAnalyzer(ignore=[u"running", u"libraries", u"jumped"])), P),
         "fancy": (text(analysis.FancyAnalyzer()), {"positional": False, "offsets": False, "highlight": False}),
         "regex": (text(analysis.RegexAnalyzer()), P),
         "regex-gaps": (text(analysis.RegexAnalyzer(r"\s+", gaps=True)), P),
@@ -63,8 +64,9 @@ def configs():
                            dict(P, positional=False, highlight=False, words=False)),
         "id": (fields.ID(stored=True), dict(P, positional=False, highlight=False, words=False)),
         "ngram": (fields.NGRAM(minsize=2, maxsize=3, stored=True), NP),
-        "ngramwords": (fields.NGRAMWORDS(minsize=2, maxsize=3, stored=True), NP),
-        "ngramwords-start": (fields.NGRAMWORDS(minsize=2, maxsize=4, stored=True, at="start"), NP),
+        "ngramwords": (fields.NGRAMWORDS(minsize=2, maxsize=4, stored=True), dict(NP, highlight=True, grams=True)),
+        "ngramwords-start": (fields.NGRAMWORDS(minsize=2, maxsize=4, stored=True, at="start"),
+                             dict(NP, highlight=True, grams=True)),
         "accent-folding": (text(RegexTokenizer() | LowercaseFilter() | CharsetFilter(accent_map)), P),
         "intraword": (text(RegexTokenizer(r"\S+") | IntraWordFilter() | LowercaseFilter()), NP),
         "intraword-documented": (text(RegexTokenizer(r"\S+")
@@ -75,7 +77,8 @@ def configs():
         "shingle": (text(RegexTokenizer() | LowercaseFilter() | ShingleFilter(2), phrase=False), NP),
         "metaphone-combined": (text(RegexTokenizer() | LowercaseFilter() | DoubleMetaphoneFilter(combine=True)), NP),
         "tee-reverse": (text(RegexTokenizer() | TeeFilter(PassFilter(), ReverseTextFilter()) | LowercaseFilter()), NP),
-        "ngramfilter": (text(RegexTokenizer() | LowercaseFilter() | NgramFilter(2, 3)), NP),
+        "ngramfilter": (text(RegexTokenizer() | LowercaseFilter() | NgramFilter(2, 3)),
+                        dict(NP, highlight=True, grams=True)),
         "space+strip+subst": (text(SpaceSeparatedTokenizer() | StripFilter() | SubstitutionFilter("-", "")
                                    | LowercaseFilter()), dict(P, offsets=False)),
         "compound": (text(RegexTokenizer() | LowercaseFilter()
@@ -113,21 +116,41 @@ class MarkFormatter(object):
 
 def build_case(run, rng, name, field, flags, ndocs):
     from whoosh import fields, query, qparser, highlight
-    from whoosh.filedb.filestore import RamStorage
+    from whoosh.filedb.filestore import FileStorage
+    import shutil
+    import tempfile
     schema = fields.Schema(key=fields.ID(stored=True, unique=True), f=field)
-    ix = RamStorage().create_index(schema)
+    tmpdir = tempfile.mkdtemp(prefix="verif-c17-")
+    try:
+        return _build_case(run, rng, name, field, flags, ndocs, schema, FileStorage(tmpdir))
+    finally:
+        shutil.rmtree(tmpdir, ignore_errors=True)
+
+
+def _build_case(run, rng, name, field, flags, ndocs, schema, storage):
+    from whoosh import query, qparser, highlight
+    ix = storage.create_index(schema)
     texts = {}
     keys = ["k%d" % i for i in range(ndocs)]
     cut = rng.randrange(1, ndocs)
-    for part in (keys[:cut], keys[cut:]):
+    for pi, part in enumerate((keys[:cut], keys[cut:])):
         w = ix.writer()
         for k in part:
             texts[k] = rand_text(rng, (1, 2) if name in ("id",) else (1, 9))
+            if name == "stemming-ignore" and rng.random() < 0.6:     # words on the analyzer's ignore list
+                texts[k] += rng.choice([u" running", u" libraries jumped", u", Running"])
             w.add_document(key=k, f=texts[k])
         w.commit(merge=False)
+        # the second segment, the deletion, the searches and the query-time analysis go through the index
+        # as re-opened from disk: its schema (with the analyzers) is the one unpickled from the TOC, while
+        # the model below keeps using the analyzer object the field was configured with
+        ix.close()
+        ix = storage.open_index()
     w = ix.writer()
     w.delete_by_term("key", keys[0])
     w.commit(merge=False)
+    schema = ix.schema
+    qfield = schema["f"]
 
     intern = {}
 
@@ -177,7 +200,7 @@ def build_case(run, rng, name, field, flags, ndocs):
                 ask({"op": "term", "f": "f", "t": [tid(t)], "b4": 4}, query.Term("f", t), dn, "Term(index-time token)")
             # (2) the conjunction of the query-time tokens of the same text
             try:
-                qtoks = list(field.process_text(text, mode="query"))
+                qtoks = list(qfield.process_text(text, mode="query"))
             except Exception as ex:
                 qtoks = None
                 qs.append({"q": null, "text": text, "obs": [{"kind": "error", "path": "process_text(mode=query)",
@@ -191,7 +214,7 @@ def build_case(run, rng, name, field, flags, ndocs):
             for wd in [x for x in sorted(set(text.split())) if x.isalnum()][:4] if flags.get("words") else []:
                 try:
                     pq = parser.parse(wd)
-                    if pq is query.NullQuery or not list(field.process_text(wd, mode="query")):
+                    if pq is query.NullQuery or not list(qfield.process_text(wd, mode="query")):
                         continue
                     ids = ids_of(pq)
                     qs.append({"q": null, "text": text, "word": wd, "obs": [
@@ -221,8 +244,21 @@ def build_case(run, rng, name, field, flags, ndocs):
                                                         "offsets": flags["offsets"]}]})
             run.count(1)
             # (6) highlights
-            if flags["highlight"] and qtoks:
-                pick = rng.sample(sorted(set(qtoks)), min(2, len(set(qtoks))))
+            if flags["highlight"] and (qtoks or flags.get("grams")):
+                pool = sorted(set(x[0] for x in toks)) if flags.get("grams") else sorted(set(qtoks))
+                if not pool:
+                    continue
+                pick = rng.sample(pool, min(2, len(pool)))
+                if flags.get("grams"):
+                    # overlapping matched grams that follow one another in the token stream
+                    # (preferably one nested inside the other)
+                    adj = [(a[0], b[0]) for a, b in zip(toks, toks[1:]) if a[2] <= b[2] <= a[3] and a[0] != b[0]]
+                    nested = [(a[0], b[0]) for a, b in zip(toks, toks[1:])
+                              if a[2] <= b[2] and b[3] < a[3] and a[0] != b[0]]
+                    if nested and rng.random() < 0.6:
+                        pick = list(rng.choice(nested))
+                    elif adj and rng.random() < 0.5:
+                        pick = list(rng.choice(adj))
                 hq = query.Or([query.Term("f", t) for t in pick])
                 for fname, frag in (("context", highlight.ContextFragmenter(maxchars=40, surround=8)),
                                     ("sentence", highlight.SentenceFragmenter(maxchars=60)),
@@ -243,13 +279,19 @@ def build_case(run, rng, name, field, flags, ndocs):
                                 elif ch == M1:
                                     span = u"".join(plain[start:pos])
                                     marks.append([fi + 1, start, pos,
-                                                  [tid(x[0]) for x in tokens_of(field, span, "query")]])
+                                                  [tid(x[0]) for x in tokens_of(field, span,
+                                                                                "index" if flags.get("grams") else "query")]])
                                 else:
                                     plain.append(ch)
                                     pos += 1
                             frags.append([ord(c) for c in plain])
+                        # where the query's terms occur in the text (index-mode token offsets); asked only
+                        # for the whole-text fragmenter, whose fragment coordinates are the text's
+                        occ = [[1, sc, ec] for t, pos, sc, ec in toks if t in pick] \
+                            if fname == "whole" and frags and len(frags) == 1 and len(frags[0]) == len(text) else []
                         o = {"kind": "highlight", "path": "highlights(%s)" % fname, "text": [ord(c) for c in text],
-                             "frags": frags, "marks": marks, "qterms": [tid(t) for t in pick], "raw": out}
+                             "frags": frags, "marks": marks, "qterms": [tid(t) for t in pick], "occ": occ, "spans_checked": not flags.get("grams"),
+                             "raw": out}
                     except Exception as ex:
                         o = {"kind": "error", "path": "highlights(%s)" % fname, "err": type(ex).__name__,
                              "msg": str(ex)[:200]}
